@@ -283,6 +283,9 @@ def _kind_confusion(run: Run, prog: Program, model: Model, eqf: Optional[FuncInf
 
 P = "d42/declaration/_props.py"
 MUTANTS = [
+    {"name": "validator tells bool and int apart in the fixed-value comparison", "rule": "VALUE-EQ-AGREE",
+     "edits": [("d42/validation/_validator.py", "        if value != expected_val:\n            return ValueValidationError(path, value, expected_val)",
+                "        if (isinstance(value, bool) != isinstance(expected_val, bool)) or (value != expected_val):\n            return ValueValidationError(path, value, expected_val)")]},
     {"name": "second loop of Props.__eq__ deleted", "rule": "REGISTRY-BOTH-WAYS",
      "edits": [(P, "        for key, other_val in other._registry.items():\n            val = self.get(key)\n            if other_val != val:\n                return False\n\n", "")]},
     {"name": "alias `name` skipped in equality", "rule": "REGISTRY-BOTH-WAYS",
